@@ -15,8 +15,8 @@ const XREPS: &[&str] = &["x", "A", " ", "\"", ";", "=", "\t", "z", "%", "\\"];
 const U8REPS: &[&str] = &["é", "あ", "😀"];
 const HIREPS: &[u8] = &[0xFF, 0x80, 0xFE, 0xC0];
 const NAMES: &[(&str, &str)] = &[("a", "b"), ("user-name", "pet photos"), ("x; filename=y", "é[]")];
-const F1REPS: &[&str] = &["f.txt", "é 1.png", "a;b=c.tar.gz", "C:\\dir\\f.bin"];
-const F2REPS: &[&str] = &["g.md", "x'y.jpg", "noext", "%22q.pdf"];
+const F1REPS: &[&str] = &["f.txt", "é 1.png", "a;b=c.tar.gz", "C:\\dir\\f.bin", "C:\\Users\\me\\"];      // (the last one ends with a backslash: sent verbatim by a conforming encoder)
+const F2REPS: &[&str] = &["g.md", "x'y.jpg", "noext", "%22q.pdf", "odd\\\\\\"];
 const M1REPS: &[&str] = &["application/octet-stream", "image/png"];
 const M2REPS: &[&str] = &["text/plain; charset=UTF-8", "text/markdown"];
 const MTXTREPS: &[&str] = &["text/plain", "text/plain; charset=UTF-8"];
